@@ -10,7 +10,7 @@ args = [a for a in sys.argv[1:] if not a.startswith("--")]
 ids = [a.upper() for a in args] or sorted(d for d in os.listdir(os.path.join(HOME, "seeded")) if d.startswith("C"))
 jobs = []
 for pid in ids:
-    for sub, tag in (("", pid), ("round2", pid + ".r2"), ("round3", pid + ".r3")):
+    for sub, tag in (("", pid), ("round2", pid + ".r2"), ("round3", pid + ".r3"), ("round4", pid + ".r4")):
         jobs.append((pid, os.path.join(HOME, "seeded", pid, sub, "patch.diff"), tag))
 for pid, patch, tag in jobs:
     if only and not tag.endswith(only[0][7:]):
